@@ -69,11 +69,12 @@ pub mod trusted {
 broadcast use {
     trusted::axiom_service_cookie_key_model, trusted::axiom_object_cookie_key_model,
     trusted::axiom_channel_cookie_key_model, trusted::axiom_bus_listener_cookie_key_model,
-    vstd::std_specs::hash::group_hash_axioms,
+    vstd::std_specs::hash::group_hash_axioms, trusted_default::axiom_default_hashset_u32,
 };
 
 
 //@include _shared/std_get_mut_spec.rs
+//@include _shared/std_or_default_spec.rs
 
 // ---- extracted from broker/src/broker/conn_state.rs ---------------------------------------------------
 //@item broker/src/broker/conn_state.rs struct ConnectionState
@@ -131,6 +132,15 @@ impl ConnectionState {
         &&& self.senders == o.senders &&& self.receivers == o.receivers
         &&& self.bus_listeners == o.bus_listeners &&& self.calls == o.calls
     }
+
+    //@fn broker/src/broker/conn_state.rs ConnectionState::subscribe_event
+        requires old(self).inv(),
+        ensures
+            final(self).inv(),
+            final(self).ev(svc_cookie) == old(self).ev(svc_cookie).insert(event),
+            forall|c: ServiceCookie| c != svc_cookie ==> final(self).ev(c) == old(self).ev(c),
+            final(self).same_but_events(old(self)),
+    //@end
 
     //@fn broker/src/broker/conn_state.rs ConnectionState::unsubscribe_event
         requires old(self).inv(),
